@@ -804,6 +804,26 @@ def gen_rest_pkg(rng, force=None):
     return pk
 
 
+def hand_rest_same_name_pkg():
+    """`shoot rest`: two clients of one run whose methods take struct parameters of the SAME bare name from DIFFERENT packages (the local
+    `Query` and `dest.Query`; a third client takes both): each client's query parameters are those of ITS struct, whichever client
+    was generated before it"""
+    src = ("package rc\n\nimport (\n\t\"context\"\n\t\"net/http\"\n\n\t\"github.com/lopolopen/shoot\"\n\t\"@DEST@\"\n)\n\n"
+           "type Query struct {\n\tKey  string\n\tSize int\n}\n\n"
+           "// ClientAlpha talks to a service\ntype ClientAlpha interface {\n\tshoot.RestClient[ClientAlpha]\n\n"
+           "\t//shoot: Get(\"/users\")\n\tM0(ctx context.Context, q Query) (*http.Response, error)\n\n}\n\n"
+           "// ClientBeta talks to a service\ntype ClientBeta interface {\n\tshoot.RestClient[ClientBeta]\n\n"
+           "\t//shoot: Get(\"/orders\")\n\tM0(ctx context.Context, q dest.Query) (*http.Response, error)\n\n}\n\n"
+           "// ClientGamma talks to a service\ntype ClientGamma interface {\n\tshoot.RestClient[ClientGamma]\n\n"
+           "\t//shoot: Get(\"/far\")\n\tM0(ctx context.Context, q dest.Query) (*http.Response, error)\n\n"
+           "\t//shoot: Get(\"/near\")\n\tM1(ctx context.Context, q Query) (*http.Response, error)\n\n}\n")
+    dst = "package dest\n\ntype Query struct {\n\tFrom string\n\tTo   string\n\tPage int\n}\n"
+    names = ["ClientAlpha", "ClientBeta", "ClientGamma"]
+    return {"cmd": "rest", "flags": [], "files": {"t.go": src, "dest/d.go": dst}, "cwd": ".", "gofile": "t.go", "types": names,
+            "all_types": names, "setup": [], "model": simple_model({n: "gen" for n in names}),
+            "feats": {"rest": 1, "types-3": 1, "hand-rest-same-struct-name-two-packages": 1}, "star": False}
+
+
 GENS = {"new": gen_new_pkg, "map": gen_map_pkg, "maprich": gen_map_rich_pkg, "enum": gen_enum_pkg, "rest": gen_rest_pkg}
 
 
